@@ -155,6 +155,8 @@ Fixpoint has_dup (l : list nat) : bool :=
   match l with [] => false | x :: t => existsb (Nat.eqb x) t || has_dup t end.
 Definition transpose (a : arr) (axes : list Z) : res arr :=
   let nd := length (shp a) in
+  (* a.transpose() without arguments reverses the axes *)
+  let axes := match axes with [] => map Z.of_nat (rev (seq 0 nd)) | _ => axes end in
   if negb (length axes =? nd) then Err ValueError else
   do ax <- mapM (norm_axis nd) axes;
   if has_dup ax then Err ValueError else
